@@ -202,6 +202,7 @@ func c05Ops(v11 bool, withWrong bool) []c05Op {
 			if err := q.UnmarshalBinary(wire); err != nil {
 				return "lib=err model=ok"
 			}
+			observe(&q) // a receiver logs the frame it decoded
 			x.p = &q
 			x.fcnt &= 0xFFFF
 			x.foptsCmds, x.frmCmds = false, false
@@ -508,6 +509,7 @@ func runC05(r *engine.Run) {
 			c.Fail("witness/decode", err.Error(), nil)
 			return
 		}
+		observe(&q) // a receiver logs the frame it decoded
 		c.NonTrivial()
 		qm := q.MACPayload.(*lorawan.MACPayload)
 		qm.FHDR.FCnt = w.fcnt
@@ -556,6 +558,7 @@ func runC05(r *engine.Run) {
 				c.Outcome("tamper/undecodable")
 				return
 			}
+			observe(&q) // a receiver logs the frame it decoded
 			mp, ok := q.MACPayload.(*lorawan.MACPayload)
 			if !ok {
 				// the flipped bit turned the frame into another kind: a receiver that still runs
